@@ -76,6 +76,7 @@ namespace ip {
 		s.m_forwarder.reset();
 		s.m_open = false;
 		s.m_bound_to = ip::tcp::endpoint();
+		s.m_user_bound_to = ip::tcp::endpoint();
 
 		if (m_bound_to != ip::tcp::endpoint())
 			m_io_service.rebind_socket(&s, this, m_bound_to);
